@@ -63,6 +63,15 @@ def run(tier, seed):
             s.append(line("src", "k%d" % j, sx(b["src"])))
             for f in FM: s.append(line("conv", "s_data" if f == "fodt" else "s_conv", "k%d" % j, docs.FMT[f], docs.STD, 0))
         segs.append(s); meta.append(("blocks", i))
+    # delimiter soup: nesting of the markup (LaTeX groups/environments, XML elements) for every ordered pair of inline delimiters
+    soup = docs.delimiter_soup()
+    soup = soup if tier == "thorough" else soup[1::2]
+    for i in range(0, len(soup), per * 4):
+        s = ["seg\tsoup", "wantout\t1"]
+        for j, (k, a, b2, d) in enumerate(soup[i:i + per * 4]):
+            s.append(line("src", "u%d" % j, sx(d)))
+            for f in FM: s.append(line("conv", "s_data" if f == "fodt" else "s_conv", "u%d" % j, docs.FMT[f], docs.STD, 0))
+        segs.append(s); meta.append(("soup", i))
     res = run_harness(exe, segs, timeout=30)
     trace = []; problems = []; nconv = 0
     for (kind, base), seg, r in zip(meta, segs, res):
@@ -73,6 +82,10 @@ def run(tier, seed):
             if ev.get("e") == "conv": outs[(ev["src"], ev["fmt"])] = (project.lat1(ev["out"]) if ev.get("out") is not None else None)
         for (sid, fm), out in sorted(outs.items()):
             fmt = docs.FMTNAME[fm]; nconv += 1
+            if kind == "soup":
+                ok, evs, _ = nesting(fmt, out or b"")
+                trace.append(dict(e="nest", fmtname=fmt, parsed=ok, events=evs, src=soup[base + int(sid[1:])][3]))
+                continue
             if kind == "esc":
                 if not sid.startswith("e"): continue
                 c = esc[base + int(sid[1:])]; bout = outs.get(("b" + sid[1:], fm))
@@ -93,7 +106,7 @@ def run(tier, seed):
     chk.add("traces_validated_against_impl", len(segs) - len(problems))
     chk.add("trace_events_validated", acc)
     chk.cov["evaluations"] = nconv; chk.cov["distinct_nontrivial"] = len(esc) + len(blocks)
-    chk.cov["rule"] = "escaping cases = 24 slots x 16 characters (each with its plain-text twin) x 6 formats; order cases = every sequence of <= %d block kinds of 9 + simulated 7-block sequences x 6 formats; nesting checked on every output" % (3 if tier == "quick" else 4)
+    chk.cov["rule"] = "escaping cases = 24 slots x 16 characters (each with its plain-text twin) x 6 formats; order cases = every sequence of <= %d block kinds of 9 + simulated 7-block sequences x 6 formats; nesting checked on every output, and on the delimiter soup (ordered pairs of 27 inline delimiters)" % (3 if tier == "quick" else 4)
     chk.sample(dict(src=esc[17]["src"], slot=esc[17]["slot"], ch=esc[17]["ch"])); chk.sample(dict(src=blocks[50]["src"], ks=blocks[50]["ks"]))
     seen = {}
     for seg, idx in rejected:
